@@ -21,6 +21,7 @@
 #include <chrono>
 #include <csignal>
 #include <memory>
+#include <sstream>
 #include <stdexcept>
 #include <thread>
 
@@ -221,43 +222,99 @@ namespace {
     }
 }    // namespace
 
+// Run the case in a child of its own with stdout captured; returns the wait status.
+static void run_body(case_t const& c, bool task_mode, bool fell_back);
+static int run_captured(case_t const& c, bool task_mode, unsigned wall, std::string& out)
+{
+    int fd[2];
+    if (pipe(fd) != 0) _exit(3);
+    std::fflush(stdout);
+    pid_t pid = fork();
+    if (pid == 0)
+    {
+        close(fd[0]);
+        dup2(fd[1], 1);
+        close(fd[1]);
+        alarm(wall);
+        run_body(c, task_mode, false);
+        _exit(0);
+    }
+    close(fd[1]);
+    char buf[4096];
+    ssize_t n;
+    while ((n = read(fd[0], buf, sizeof buf)) > 0) out.append(buf, std::size_t(n));
+    close(fd[0]);
+    int st = 0;
+    waitpid(pid, &st, 0);
+    return st;
+}
+
+static std::vector<std::string> log_lines(std::string const& out)
+{
+    std::vector<std::string> v;
+    std::istringstream is(out);
+    std::string l;
+    while (std::getline(is, l))
+        if (l.find(" tk.stat ") == std::string::npos) v.push_back(l);
+    return v;
+}
+
 static void run_one(case_t const& c)
 {
-    int k = int(c.threads.size());
-    bool task_mode = c.gets("agent", "os") == "task";
-    bool fell_back = false;
-    if (task_mode)
+    if (c.gets("agent", "os") != "task") run_body(c, false, false);
+    // agent=task.  The live runtime runs in a child of its own.  The only wall-clock limit is a
+    // safety net against an unbounded run on an overloaded machine: if it fires (and the state-based
+    // watchdog has declared nothing) the task-mode run is inconclusive - it gives NO verdict - and
+    // the same case is run with the OS-thread agent instead; the log then starts with a
+    // `tk.fallback` line, which the check counts.
+    alarm(0);
+    std::string tout;
+    int st = run_captured(c, true, unsigned(c.geti("wall", 240)), tout);
+    if (WIFSIGNALED(st) && WTERMSIG(st) == SIGALRM)
     {
-        // The live runtime runs in a child of its own.  The only wall-clock limit is a safety net
-        // against an unbounded run on an overloaded machine: if it fires (and the state-based
-        // watchdog has declared nothing) the task-mode run is inconclusive - it gives NO verdict -
-        // and the same case is run with the OS-thread agent instead; the log then starts with a
-        // `tk.fallback` line, which the check counts.
-        alarm(0);
-        std::fflush(stdout);
-        pid_t pid = fork();
-        if (pid != 0)
-        {
-            int st = 0;
-            waitpid(pid, &st, 0);
-            if (WIFSIGNALED(st) && WTERMSIG(st) == SIGALRM)
-            {
-                std::fprintf(stderr, "case %s: task-mode run inconclusive (wall-clock safety net), "
-                                     "falling back to the OS-thread agent\n", c.id.c_str());
-                task_mode = false;
-                fell_back = true;
-                alarm(120);
-            }
-            else if (WIFSIGNALED(st))
-            {
-                std::printf("end crash signal=%d\n", WTERMSIG(st));
-                std::fflush(stdout);
-                _exit(0);
-            }
-            else { _exit(WIFEXITED(st) ? WEXITSTATUS(st) : 0); }
-        }
-        else { alarm(unsigned(c.geti("wall", 240))); }
+        std::fprintf(stderr, "case %s: task-mode run inconclusive (wall-clock safety net), "
+                             "falling back to the OS-thread agent\n", c.id.c_str());
+        alarm(120);
+        run_body(c, false, true);
     }
+    if (WIFSIGNALED(st))
+    {
+        std::fputs(tout.c_str(), stdout);
+        std::printf("end crash signal=%d\n", WTERMSIG(st));
+        std::fflush(stdout);
+        _exit(0);
+    }
+    // Differential monitor (independent of the Lean model): the log is a function of the
+    // controller's choices and of what the primitives do, and neither may depend on the kind of
+    // agent that carries the wake-up; so the OS-thread run of the same case (same program, same
+    // schedule seed) must produce the same log line by line (the `tk.stat` line apart).  A
+    // difference is reported as a `tk.diff <first differing line>` line in front of `end`.
+    if (c.geti("diff", 1) != 0 && tout.find("\nend hang") == std::string::npos)
+    {
+        std::string oout;
+        int st2 = run_captured(c, false, 120, oout);
+        if (!(WIFSIGNALED(st2) && WTERMSIG(st2) == SIGALRM))
+        {
+            auto a = log_lines(tout), b = log_lines(oout);
+            if (std::getenv("VERIF_C09P_DIFF_SELFTEST") != nullptr && b.size() > 3) b.erase(b.end() - 3);
+            std::size_t i = 0;
+            while (i < a.size() && i < b.size() && a[i] == b[i]) ++i;
+            if (i < a.size() || i < b.size())
+            {
+                auto pos = tout.rfind("end ");
+                if (pos == std::string::npos || (pos > 0 && tout[pos - 1] != '\n')) pos = tout.size();
+                tout.insert(pos, "0 tk.diff 0 " + std::to_string(i + 1) + " 0\n");
+            }
+        }
+    }
+    std::fputs(tout.c_str(), stdout);
+    std::fflush(stdout);
+    _exit(WIFEXITED(st) ? WEXITSTATUS(st) : 0);
+}
+
+static void run_body(case_t const& c, bool task_mode, bool fell_back)
+{
+    int k = int(c.threads.size());
     auto* ctl = new controller(k, std::uint64_t(c.geti("seed", 1)), int(c.geti("strat", 0)));
     if (fell_back) ctl->logf(0, "tk.fallback", 0, 0, 0);
     ctl->max_steps = std::size_t(c.geti("maxsteps", 20000));
